@@ -19,7 +19,7 @@ EXPLANATION = (
     "The bulk computations that enable_features requests are proved: region features (contracts/bulkrp.py), edge IoU (contracts/bulkiou.py), track and lineage ids (contracts/bulkids.py) - each writes "
     "exactly the reference values for the current state. "
     "AnnotatorRegistry.compute is proved to call every annotator's compute once with the given keys, TrackAnnotator.compute to assign track / lineage ids iff the respective key is requested and active. "
-    "BOUNDED STAND-INS (not proofs):  and whole interleavings of enable/disable/edits/undo/redo "
+    "BOUNDED STAND-INS (not proofs): whole interleavings of enable/disable/edits/undo/redo "
     "against the reference; the walk with the lineage feature switched off.")
 ASSUMPTIONS = ["the track id of a SolutionTracks is never disabled (with it off the TrackAnnotator ignores every edit; outside the domain of C04-C06)",
                "an element deleted and re-created by an edit is a new element: its disabled attributes are not expected to be carried over"]
